@@ -12,12 +12,13 @@ package bytesize
 //@ spec func specSizeWF(s string) bool = len(s) >= 2 && specUnitOf(s[len(s)-1]) > 0 && (forall j int :: 0 <= j && j < len(s)-1 ==> specIsDigit(s[j]))
 //@ spec func specSizeVal(s string) int = specDecVal(s, len(s)-1) * specUnitOf(s[len(s)-1])
 
-//@ props C17 C16
+// (also C18: a size that does not fit is refused, never accepted as a different size)
+//@ props C17 C16 C18
 //@ func Parse
 //@   pure
 //@   nopanic
-//@   ensures [C17] result1 == nil ==> specSizeWF(s)
-//@   ensures [C17] result1 == nil ==> result0 == specSizeVal(s)
+//@   ensures [C17,C18] result1 == nil ==> specSizeWF(s)
+//@   ensures [C17,C18] result1 == nil ==> result0 == specSizeVal(s)
 //@   ensures [C17] specSizeWF(s) && specSizeVal(s) <= MaxInt64 && (forall n int :: 0 <= n && n < len(s) ==> specDecVal(s, n) <= MaxInt64) ==> result1 == nil
 //@   loop 1 invariant rangepos <= len(s) && num >= 0 && len(s) > 0
 //@   loop 1 invariant !foundUnit ==> multiplier == 1 && num == specDecVal(s, rangepos) && (forall j int :: 0 <= j && j < rangepos ==> specIsDigit(s[j]))
